@@ -50,6 +50,9 @@ type Op struct {
 	Heights  []uint64 // Append
 	From, To uint64   // Delete
 	Fails    []Fail
+	During   []uint64 // Delete: headers outside the range that handler 0 appended and synced in the middle of this deletion (recorded by Run; honoured when Config.Replay is set)
+	Rushed   bool     // Append: the next operation followed immediately (recorded; honoured when Config.Replay is set)
+	NoWait   bool     // Append: probed right after Sync without waiting for quiescence (recorded; honoured when Config.Replay is set)
 }
 
 type Config struct {
@@ -63,6 +66,7 @@ type Config struct {
 	Crash                 int  // number of write-log prefixes to reopen (0 = none, <0 = all)
 	FailHdrFrom, FailHdrN int  // transient failures of flush commits (FailHdrN = 0: none)
 	CtxDS                 bool // context-aware datastore flavour: write batches and read transactions via the context
+	Replay                bool // re-run of a recorded script: the runner's own random choices (append+flush inside a deletion, rushed appends) are taken from the ops
 }
 
 // Gen decides the next op given the current head/tail heights (0,0 = empty) and the step index.
@@ -323,6 +327,7 @@ func Run(t *testing.T, rng *emit.Rand, cfg Config, maxOps int, gen Gen) Result {
 		var steps []string
 		var descr []string
 		var loglens []string
+		var script []Op // the operations as executed: with Config, enough to re-run the history (Scripted) and to shrink it
 		forceRestart := false
 		for i := 0; i < maxOps; i++ {
 			var tl, hd uint64
@@ -341,6 +346,7 @@ func Run(t *testing.T, rng *emit.Rand, cfg Config, maxOps int, gen Gen) Result {
 			}
 			var extra []uint64
 			out.Ops++
+			script = append(script, op)
 			r.log = nil
 			outc := "OOk"
 			var opTerm string
@@ -380,7 +386,9 @@ func Run(t *testing.T, rng *emit.Rand, cfg Config, maxOps int, gen Gen) Result {
 					opTerm = fmt.Sprintf("IDelete %d %d %d%%nat %s", op.From, op.To, cfg.NH, emit.List(fs))
 					r.fails = op.Fails
 					r.during, r.duringDone, r.duringErr = nil, false, false
-					if cfg.NH > 0 && tl > 0 && op.From < op.To && r.rng.Chance(cfg.DuringPct) {
+					if cfg.Replay {
+						r.during = op.During
+					} else if cfg.NH > 0 && tl > 0 && op.From < op.To && r.rng.Chance(cfg.DuringPct) {
 						var cand []uint64
 						for n := tl; n <= hd; n++ {
 							if n < op.From || n >= op.To {
@@ -405,7 +413,8 @@ func Run(t *testing.T, rng *emit.Rand, cfg Config, maxOps int, gen Gen) Result {
 						// for the model the append comes after the deletion: the headers are stored and outside
 						// the range, so the order makes no difference to any observation
 						extra = r.during
-						forceRestart = r.rng.Bool()
+						forceRestart = !cfg.Replay && r.rng.Bool()
+						script[len(script)-1].During = append([]uint64(nil), r.during...)
 						out.During++
 					}
 					r.during = nil
@@ -460,8 +469,13 @@ func Run(t *testing.T, rng *emit.Rand, cfg Config, maxOps int, gen Gen) Result {
 			// sometimes the next operation follows an Append immediately (no quiescence in between):
 			// the batch is then still in the writes queue when a Stop / DeleteRange / Append arrives
 			rush := op.Kind == Append && i < maxOps-1 && r.rng.Chance(30)
+			nowait := op.Kind == Append && !rush && cfg.FailHdrN == 0 && r.rng.Chance(45)
+			if cfg.Replay {
+				rush, nowait = op.Kind == Append && i < maxOps-1 && op.Rushed, op.Kind == Append && cfg.FailHdrN == 0 && op.NoWait && !op.Rushed
+			}
+			script[len(script)-1].Rushed, script[len(script)-1].NoWait = rush, nowait
 			probe := "None"
-			if op.Kind == Append && !rush && cfg.FailHdrN == 0 && r.rng.Chance(45) {
+			if nowait {
 				// Sync, then probe at once (no quiescence): what was appended before Sync returned must be readable
 				steps = append(steps, fmt.Sprintf("SStep (%s) %s %s None", opTerm, outc, emit.List(r.log)))
 				loglens = append(loglens, emit.Nat(len(r.rec.Log)))
@@ -514,7 +528,8 @@ func Run(t *testing.T, rng *emit.Rand, cfg Config, maxOps int, gen Gen) Result {
 			t.Fatal("final stop 2:", err)
 		}
 		out.Term = fmt.Sprintf("SCase %d %s %s %s", cfg.Batch, emit.List(chainTerms), emit.List(steps), dump)
-		out.Descr = map[string]any{"ctxds": cfg.CtxDS, "batch": cfg.Batch, "cache": cfg.Cache, "icache": cfg.ICache, "handlers": cfg.NH, "ops": descr}
+		out.Descr = map[string]any{"ctxds": cfg.CtxDS, "batch": cfg.Batch, "cache": cfg.Cache, "icache": cfg.ICache, "handlers": cfg.NH, "ops": descr,
+			"script": map[string]any{"cfg": cfg, "ops": script}}
 		out.NonTriv = out.Ops >= 3
 		if cfg.Crash != 0 {
 			out.LogLen = len(r.rec.Log)
